@@ -5,6 +5,12 @@
 //! op lines:  n / r / commit as in the `query` stream, then
 //!   update <params|-> <text~> <sexpr...>   execute_mixed in its own write transaction, commit on success:
 //!                                          `ok <change count>` | `err <class>` (transaction dropped)
+//!   updatew <params|-> <text~> <sexpr...>  the same through execute_write
+//!   updatet <params|-> <paths> <text~|;|text~…> <sexpr...>
+//!                                          several statements in ONE write transaction, all against the snapshot
+//!                                          taken before begin_write; <paths> has one letter per statement
+//!                                          (m = execute_mixed, w = execute_write); commit at the end:
+//!                                          `ok <count>,<count>,…` | `err <class>` (transaction dropped)
 //!   dump                                   `g <nodes> <rels>`  nodes: id:labels:props;…   rels: src-type-dst*mult:props;…
 use super::cygen;
 use super::query::{GraphBuf, build_db, err_line, exec_params, parse_labels, parse_props, parse_pv, unescape_text};
@@ -105,6 +111,68 @@ impl State for S {
                 Some(db) => dump(db),
                 None => "bad-op".into(),
             },
+            ["updatet", params, paths, texts, ..] => {
+                let Some(db) = &self.db else { return "bad-op".into() };
+                let mut ps = exec_params();
+                if *params != "-" {
+                    for kv in params.split(',') {
+                        let Some((k, v)) = kv.split_once('=') else { return "bad-op".into() };
+                        let Some(v) = parse_pv(v) else { return "bad-op".into() };
+                        ps.insert(k, pv_to_value(v));
+                    }
+                }
+                let texts: Vec<&str> = texts.split("|;|").collect();
+                let paths: Vec<char> = paths.chars().collect();
+                if texts.len() != paths.len() {
+                    return "bad-op".into();
+                }
+                let snap = db.snapshot();
+                let mut txn = db.begin_write();
+                let mut counts = vec![];
+                for (text, path) in texts.iter().zip(paths.iter()) {
+                    let prepared = match prepare(&unescape_text(text)) {
+                        Ok(p) => p,
+                        Err(e) => return err_line(&e.to_string()),
+                    };
+                    let res = if *path == 'w' {
+                        prepared.execute_write(&snap, &mut txn, &ps)
+                    } else {
+                        prepared.execute_mixed(&snap, &mut txn, &ps).map(|(_, c)| c)
+                    };
+                    match res {
+                        Ok(c) => counts.push(c.to_string()),
+                        Err(e) => return err_line(&e.to_string()),
+                    }
+                }
+                match txn.commit() {
+                    Ok(()) => format!("ok {}", counts.join(",")),
+                    Err(e) => err_line(&format!("commit: {}", e)),
+                }
+            }
+            ["updatew", params, text, ..] => {
+                let Some(db) = &self.db else { return "bad-op".into() };
+                let mut ps = exec_params();
+                if *params != "-" {
+                    for kv in params.split(',') {
+                        let Some((k, v)) = kv.split_once('=') else { return "bad-op".into() };
+                        let Some(v) = parse_pv(v) else { return "bad-op".into() };
+                        ps.insert(k, pv_to_value(v));
+                    }
+                }
+                let prepared = match prepare(&unescape_text(text)) {
+                    Ok(p) => p,
+                    Err(e) => return err_line(&e.to_string()),
+                };
+                let snap = db.snapshot();
+                let mut txn = db.begin_write();
+                match prepared.execute_write(&snap, &mut txn, &ps) {
+                    Ok(count) => match txn.commit() {
+                        Ok(()) => format!("ok {}", count),
+                        Err(e) => err_line(&format!("commit: {}", e)),
+                    },
+                    Err(e) => err_line(&e.to_string()),
+                }
+            }
             ["update", params, text, ..] => {
                 let Some(db) = &self.db else { return "bad-op".into() };
                 let mut ps = exec_params();
